@@ -119,6 +119,36 @@ def call_ext(I: Any, name: str, args: List[Term], kwargs: Dict[str, Term], st: A
         return struct_pack(I, args, st, ctx, node)
     if name == "struct.unpack":
         return ("tuple", (struct_unpack(I, args, st, ctx, node),))
+    if name == "builtins.bytearray" and len(args) == 1 and not kwargs and T.to_seq(args[0]) is not None and T.to_seq(args[0])[1] in ("raw", "b"):
+        # a mutable byte buffer: one heap object holding the current content
+        from .interp import HeapObj
+        src_ = T.to_seq(args[0])
+        if src_[1] == "b":
+            return top("bytearray of text-like bytes is not modelled")
+        return st.alloc(HeapObj("obj", None, {"buf": src_}, [], False, "bytearray", True))
+    if name == "struct.pack_into" and len(args) >= 4 and not kwargs and is_c(args[0]) and args[1][0] == "obj" and st.heap[args[1][1]].name == "bytearray":
+        # pack_into(fmt, buf, offset, *values): the packed bytes overwrite buf[offset:offset+size] in place
+        import struct as _struct
+        off_ = as_const_int(args[2])
+        try:
+            size_ = _struct.calcsize(args[0][1])
+        except (_struct.error, TypeError):
+            size_ = None
+        ho_ = st.heap[args[1][1]]
+        if isinstance(off_, int) and off_ >= 0 and size_ is not None:
+            packed = struct_pack(I, [args[0]] + list(args[3:]), st, ctx, node)
+            buf_ = ho_.fields["buf"]
+            st.may_raise("struct.error", ("cmp", "<", length(I, buf_, st, ctx, node), c(off_ + size_)), where)
+            head_ = slice_value(I, buf_, c(0), c(off_), st, ctx, node)
+            tail_ = slice_value(I, buf_, c(off_ + size_), None, st, ctx, node)
+            if not any(is_top(x) for x in (packed, head_, tail_)):
+                ho_.fields["buf"] = T.concat(T.concat(T.to_seq(head_), T.to_seq(packed)), T.to_seq(tail_))
+                return c(None)
+        ho_.fields["buf"] = top("pack_into in a form that is not modelled")
+        return c(None)
+    if name == "struct.unpack_from" and len(args) >= 2 and is_c(args[0]) and isinstance(args[0][1], str):
+        # the module function is the method of the compiled Struct
+        return call_method(I, ("structobj", args[0]), "unpack_from", list(args[1:]), kwargs, st, ctx, node, awaited)
     if name == "builtins.int":
         return to_int(I, args, kwargs, st, ctx, node)
     if name == "builtins.int.from_bytes":
@@ -133,6 +163,8 @@ def call_ext(I: Any, name: str, args: List[Term], kwargs: Dict[str, Term], st: A
             return call_method(I, args[0], "decode", list(args[1:]), kw2, st, ctx, node, awaited)
         return format_value(I, args[0], "", st, ctx, node)
     if name == "builtins.bytes":
+        if len(args) == 1 and not kwargs and args[0][0] == "obj" and st.heap[args[0][1]].name == "bytearray":
+            return st.heap[args[0][1]].fields["buf"]       # an immutable copy of the buffer's current content
         if len(args) == 1 and not kwargs:
             a0 = args[0]
             if isinstance(a0, tuple) and a0 and a0[0] == "revbytes":
@@ -429,7 +461,7 @@ def call_ext(I: Any, name: str, args: List[Term], kwargs: Dict[str, Term], st: A
             ho = st.heap[f[1][1][1]]
             buf, pos = ho.fields["buf"], ho.fields["pos"]
             if is_c(pos) and isinstance(pos[1], int):
-                rest = buf if pos[1] == 0 else slice_value(I, buf, pos, c(None), c(None), st, ctx, node)
+                rest = buf if pos[1] == 0 else slice_value(I, buf, pos, None, st, ctx, node)
                 seq = T.to_seq(rest)
                 if seq is not None and not is_top(rest) and type(args[1][1]) is (bytes if seq[1] in ("b", "raw") else str):
                     ho.fields["pos"] = c(None)
@@ -825,6 +857,8 @@ def short_condition(s: Term, st: Any) -> Optional[Term]:
 
 
 def length(I: Any, v: Term, st: Any, ctx: Any, node: ast.AST) -> Term:
+    if isinstance(v, tuple) and v[:1] == ("obj",) and st is not None and v[1] in st.heap and st.heap[v[1]].name == "bytearray":
+        return length(I, st.heap[v[1]].fields["buf"], st, ctx, node)
     s = T.to_seq(v)
     if s is not None:
         w = T.seq_width(s)
@@ -1188,8 +1222,24 @@ def ite_pos(cond: Term, a: Term, b: Term) -> Term:
     return ite(cond, a, b)
 
 
+def _flag_value(I: Any, v: Term) -> Optional[Tuple[str, int]]:
+    """(class key, integer value) of a member of an enum.Flag / IntFlag class with plain int values."""
+    if v[0] != "enum":
+        return None
+    ci = I.prog.cls(v[1].cls)
+    if not any(ci.is_subclass_of_ext(b_) for b_ in ("enum.Flag", "enum.IntFlag")):
+        return None
+    val = ci.enum.members.get(v[1].member) if ci.enum is not None else None
+    return (ci.key, val) if isinstance(val, int) and not isinstance(val, bool) else None
+
+
 def membership(I: Any, x: Term, coll: Term, st: Any, ctx: Any, node: ast.AST) -> Optional[Term]:
     from .interp import fold_cmp
+    fx, fc = _flag_value(I, x), _flag_value(I, coll)
+    if fx is not None and fc is not None and fx[0] == fc[0]:
+        return c(fx[1] & fc[1] == fx[1])      # Flag containment: every bit of x is set in coll
+    if fx is not None and coll[0] == "lookup" and coll[1] and all(_flag_value(I, v_) is not None and _flag_value(I, v_)[0] == fx[0] for _, v_ in coll[1]):
+        return ("lookup", tuple((k_, c(fx[1] & _flag_value(I, v_)[1] == fx[1])) for k_, v_ in coll[1]), coll[2])
     items: Optional[List[Term]] = None
     if coll[0] in ("tuple", "clist", "cset"):
         items = list(coll[1])
